@@ -59,9 +59,9 @@ type Report struct {
 	Tier     string
 	Obls     []*Obligation
 	Floors   []FloorCheck
-	Notes    []string          // free text printed in the evidence (exceptions tables, scope statements)
-	Stats    map[string]int    // measured counts (packages, functions, instructions, ...)
-	Tables   map[string]any    // extracted tables, for the reader of the evidence
+	Notes    []string       // free text printed in the evidence (exceptions tables, scope statements)
+	Stats    map[string]int // measured counts (packages, functions, instructions, ...)
+	Tables   map[string]any // extracted tables, for the reader of the evidence
 	seen     map[string]*Obligation
 }
 
